@@ -41,6 +41,9 @@ def run(ctx):
     sv = ','.join('%s:%d' % (h(k), v) for k, v in NAMES.items())
     env = 'sv=%s sp=%s kp=%s' % (sv, clist(SUP), clist(KNOWN))
     unsupported = [v for v in KNOWN if v not in SUP]
+    # names the library knows but does not support; some of them share their protocol NUMBER with a supported release
+    known_only = sorted(k for k in minecraft.KNOWN_MINECRAFT_VERSIONS if k not in NAMES)
+    known_only_shared = [k for k in known_only if minecraft.KNOWN_MINECRAFT_VERSIONS[k] in SUP] or known_only or ['nonsense']
     # ------------------------------------------------------------------ constructor
     lines, impl = [], []
     name_of = {}
@@ -63,12 +66,17 @@ def run(ctx):
             if rng.random() < 0.3:
                 allowed = [name_of[v] if rng.random() < 0.6 else v for v in allowed]
         elif k < 0.9:
-            allowed = rng.sample(SUP, 2) + [rng.choice(unsupported + [99999, -1, 'nonsense', '1.99', 2.5, None])]
+            allowed = rng.sample(SUP, 2) + [rng.choice(unsupported + [99999, -1, 'nonsense', '1.99', 2.5, None]
+                                                       + [rng.choice(known_only_shared), rng.choice(known_only or ['zz'])])]
             rng.shuffle(allowed)
         else:
             allowed = []
-        ini = rng.choice([None, None, rng.choice(SUP), name_of[rng.choice(SUP)], rng.choice(unsupported), 'bad', 3.5])
+        ini = rng.choice([None, None, rng.choice(SUP), name_of[rng.choice(SUP)], rng.choice(unsupported), 'bad', 3.5,
+                          rng.choice(known_only_shared)])
         cases.append((allowed, ini))
+    for nm in known_only_shared[:ctx.scale(12, 60)]:
+        cases.append(([nm], None))
+        cases.append((None, nm))
     for allowed, ini in cases:
         try:
             c = C.Connection('h', 25565, username='u', allowed_versions=allowed, initial_version=ini)
@@ -309,11 +317,15 @@ def run(ctx):
             do_ping = mode % 2 == 0
             hs_mode = mode // 2 % 3     # 0 default(print) 1 custom 2 disabled
             hp_mode = mode // 6 % 3 if do_ping else 2
-            t0 = rng.randrange(0, 10 ** 7)
-            t1 = t0 + rng.randrange(0, 5000)
-            clock = [t0, t1]
+            # two readings of a monotonic clock, in ms with a sub-millisecond part: the round trip may be shorter
+            # than a millisecond (same host) and the ping may leave in the upper half of one
+            f0 = rng.choice([0.0004, 0.25, 0.5004, 0.75, 0.9996])
+            c0 = rng.randrange(0, 10 ** 7) + f0
+            c1 = c0 + rng.choice([0.0, 0.0001, 0.2, 0.45, 0.9, 1.3, float(rng.randrange(0, 5000))])
+            t0, t1 = int(1000 * (c0 / 1000.0)), int(1000 * (c1 / 1000.0))
+            clock = [c0, c1]
             it = iter(clock)
-            C.timeit = types.SimpleNamespace(default_timer=lambda: next(it) / 1000.0 + 0.0004)
+            C.timeit = types.SimpleNamespace(default_timer=lambda: next(it) / 1000.0)
             calls = []
             cfg = {'version': 47, 'status': ('json', json.dumps({'description': 'hello', 'n': mode}))}
             printed = []
@@ -359,7 +371,7 @@ def run(ctx):
                 bad = 'status handler calls: %r' % (st_calls,)
             elif bool(pings) != do_ping or len(pings) > 1:
                 bad = 'ping sent=%d, requested=%s' % (len(pings), do_ping)
-            elif do_ping and hp_mode in (0, 1) and (len(lat) != 1 or lat[0][1] != t1 - t0 or lat[0][1] < 0):
+            elif do_ping and hp_mode in (0, 1) and (len(lat) != 1 or lat[0][1] < 0 or abs(lat[0][1] - (c1 - c0)) > 1.5001):
                 bad = 'latency report %r for clock %r' % (lat, clock)
             elif not closed:
                 bad = 'connection not closed after the status query'
@@ -374,7 +386,8 @@ def run(ctx):
             simpl.append('ok ' + raw_status.hex())
             acts = []
             if do_ping:
-                acts = ['ping:%d' % t0, 'status', 'disc', 'latency:%d' % (t1 - t0)]
+                sent_t = int.from_bytes(pings[0][1][:8], 'big', signed=True) if pings and len(pings[0][1]) == 8 else -1
+                acts = ['ping:%d' % sent_t, 'status', 'disc', 'latency:%s' % (lat[0][1] if len(lat) == 1 else 'none')]
                 lines.append('status.run ping=1 script=r,p clock=%d,%d' % (t0, t1))
             else:
                 acts = ['disc', 'status']
